@@ -59,7 +59,17 @@ impl MemQueue {
 
     /// Returns the position of the last record appended to the queue.
     pub fn last_position(&self) -> Option<u64> {
-        self.next_position().checked_sub(1)
+        if let Some(record) = self.record_metas.last() {
+            return Some(record.position);
+        }
+        self.start_position.checked_sub(1)
+    }
+
+    /// A queue whose last record is at `u64::MAX` has no position left.
+    pub(crate) fn is_full(&self) -> bool {
+        self.record_metas
+            .last()
+            .is_some_and(|record| record.position == u64::MAX)
     }
 
     /// Returns the last record stored in the queue.
@@ -89,7 +99,7 @@ impl MemQueue {
         payload: &[u8],
     ) -> Result<(), AppendError> {
         let next_position = self.next_position();
-        if target_position < next_position {
+        if target_position < next_position || self.is_full() {
             return Err(AppendError::Past);
         }
 
